@@ -89,18 +89,18 @@ def templateTree (ipfix : Bool) (t : Template) : Json :=
     (str "ScopeFieldSpecifiers", specsTree ipfix t.scope)])
 
 /-- `"<key>":{"Template":{…},"Timestamp":<ts key>}` -/
-def entryMember (ipfix : Bool) (ts : Nat → Int) (e : Nat × Template) : Bytes × Json :=
-  (natDigits e.1, .obj (objOf [
+def entryMember (ipfix : Bool) (ts : CKey → Int) (e : CKey × Template) : Bytes × Json :=
+  (escString e.1.2, .obj (objOf [
     (str "Template", templateTree ipfix e.2),
     (str "Timestamp", .num (intDigits (ts e.1)))]))
 
-/-- shard `i`: `{"Templates":{…the entries whose key is ≡ i mod 32, keys in string order…}}` -/
-def shardTree (ipfix : Bool) (ts : Nat → Int) (c : Cache) (i : Nat) : Json :=
+/-- shard `i`: `{"Templates":{…the entries of shard i, keys in string order, escaped as `encoding/json` does…}}` -/
+def shardTree (ipfix : Bool) (ts : CKey → Int) (c : Cache) (i : Nat) : Json :=
   .obj (objOf [(str "Templates",
-    .obj (objOf ((sortEntries (c.filter fun e => e.1 % 32 = i)).map (entryMember ipfix ts))))])
+    .obj (objOf ((sortEntries (c.filter fun e => e.1.1 = i)).map (entryMember ipfix ts))))])
 
 /-- **the cache file**: `{"Cache":[shard 0,…,shard 31],"ShardNo":32}` -/
-def dumpTree (ipfix : Bool) (ts : Nat → Int) (c : Cache) : Json :=
+def dumpTree (ipfix : Bool) (ts : CKey → Int) (c : Cache) : Json :=
   .obj (objOf [
     (str "Cache", .arr (listOf ((List.range 32).map (shardTree ipfix ts c)))),
     (str "ShardNo", .num (str "32"))])
@@ -132,18 +132,18 @@ theorem render_specsTree (ipfix : Bool) (l : List Spec) : render (specsTree ipfi
 theorem render_templateTree (ipfix : Bool) (t : Template) : render (templateTree ipfix t) = templateJson ipfix t := by
   simp [templateTree, render_obj_objOf, joinSep, memberText, templateJson, kw, jnum, render, q, render_specsTree]
 
-theorem memberText_entryMember (ipfix : Bool) (ts : Nat → Int) (e : Nat × Template) :
+theorem memberText_entryMember (ipfix : Bool) (ts : CKey → Int) (e : CKey × Template) :
     memberText (entryMember ipfix ts e) = entryJsonTs ipfix ts e := by
   simp [entryMember, render_obj_objOf, joinSep, memberText, entryJsonTs, kw, render, q, render_templateTree]
 
-theorem render_shardTree (ipfix : Bool) (ts : Nat → Int) (c : Cache) (i : Nat) :
+theorem render_shardTree (ipfix : Bool) (ts : CKey → Int) (c : Cache) (i : Nat) :
     render (shardTree ipfix ts c i) = shardJsonTs ipfix ts c i := by
   have hm : (memberText ∘ entryMember ipfix ts) = entryJsonTs ipfix ts := by
     funext e; exact memberText_entryMember ipfix ts e
   simp [shardTree, render_obj_objOf, joinSep, memberText, shardJsonTs, kw, q, List.map_map, hm]
 
 /-- **the file is the rendering of its tree** -/
-theorem dumpJsonTs_eq_render (ipfix : Bool) (ts : Nat → Int) (c : Cache) :
+theorem dumpJsonTs_eq_render (ipfix : Bool) (ts : CKey → Int) (c : Cache) :
     dumpJsonTs ipfix ts c = render (dumpTree ipfix ts c) := by
   have hm : (render ∘ shardTree ipfix ts c) = shardJsonTs ipfix ts c := by
     funext i; exact render_shardTree ipfix ts c i
@@ -185,13 +185,13 @@ theorem wf_templateTree (ipfix : Bool) (t : Template) : WF (templateTree ipfix t
   exact ⟨by decide +kernel, wf_jnum _, by decide +kernel, wf_jnum _, by decide +kernel, wf_specsTree _ _,
     by decide +kernel, wf_jnum _, by decide +kernel, wf_specsTree _ _, trivial⟩
 
-theorem wf_entryMember (ipfix : Bool) (ts : Nat → Int) (e : Nat × Template) :
+theorem wf_entryMember (ipfix : Bool) (ts : CKey → Int) (e : CKey × Template) :
     isStrBody (entryMember ipfix ts e).1 = true ∧ WF (entryMember ipfix ts e).2 := by
-  refine ⟨natDigits_isStrBody e.1, ?_⟩
+  refine ⟨escString_isStrBody e.1.2, ?_⟩
   simp only [entryMember, objOf, WF, WFM]
   exact ⟨by decide +kernel, wf_templateTree _ _, by decide +kernel, intDigits_isNumber _, trivial⟩
 
-theorem wf_shardTree (ipfix : Bool) (ts : Nat → Int) (c : Cache) (i : Nat) : WF (shardTree ipfix ts c i) := by
+theorem wf_shardTree (ipfix : Bool) (ts : CKey → Int) (c : Cache) (i : Nat) : WF (shardTree ipfix ts c i) := by
   simp only [shardTree, objOf, WF, WFM]
   refine ⟨by decide +kernel, ?_, trivial⟩
   apply wfm_objOf
@@ -199,7 +199,7 @@ theorem wf_shardTree (ipfix : Bool) (ts : Nat → Int) (c : Cache) (i : Nat) : W
   obtain ⟨e, _, rfl⟩ := List.mem_map.mp hkv
   exact wf_entryMember ipfix ts e
 
-theorem dumpTree_wf (ipfix : Bool) (ts : Nat → Int) (c : Cache) : WF (dumpTree ipfix ts c) := by
+theorem dumpTree_wf (ipfix : Bool) (ts : CKey → Int) (c : Cache) : WF (dumpTree ipfix ts c) := by
   simp only [dumpTree, objOf, WF, WFM]
   refine ⟨by decide +kernel, ?_, by decide +kernel, by decide +kernel, trivial⟩
   apply wfl_listOf
@@ -229,21 +229,21 @@ theorem depth_templateTree (ipfix : Bool) (t : Template) : depth (templateTree i
   simp only [templateTree, objOf, depth, depthM, jnum]
   omega
 
-theorem depth_entryMember (ipfix : Bool) (ts : Nat → Int) (e : Nat × Template) :
+theorem depth_entryMember (ipfix : Bool) (ts : CKey → Int) (e : CKey × Template) :
     depth (entryMember ipfix ts e).2 ≤ 4 := by
   have h1 := depth_templateTree ipfix e.2
   simp only [entryMember, objOf, depth, depthM]
   omega
 
-theorem depth_shardTree (ipfix : Bool) (ts : Nat → Int) (c : Cache) (i : Nat) : depth (shardTree ipfix ts c i) ≤ 6 := by
-  have := depthM_objOf 4 ((sortEntries (c.filter fun e => e.1 % 32 = i)).map (entryMember ipfix ts)) (by
+theorem depth_shardTree (ipfix : Bool) (ts : CKey → Int) (c : Cache) (i : Nat) : depth (shardTree ipfix ts c i) ≤ 6 := by
+  have := depthM_objOf 4 ((sortEntries (c.filter fun e => e.1.1 = i)).map (entryMember ipfix ts)) (by
     intro kv hkv
     obtain ⟨e, _, rfl⟩ := List.mem_map.mp hkv
     exact depth_entryMember ipfix ts e)
   simp only [shardTree, objOf, depth, depthM]
   omega
 
-theorem dumpTree_depth (ipfix : Bool) (ts : Nat → Int) (c : Cache) : depth (dumpTree ipfix ts c) ≤ 8 := by
+theorem dumpTree_depth (ipfix : Bool) (ts : CKey → Int) (c : Cache) : depth (dumpTree ipfix ts c) ≤ 8 := by
   have := depthL_listOf 6 ((List.range 32).map (shardTree ipfix ts c)) (by
     intro x hx
     obtain ⟨i, _, rfl⟩ := List.mem_map.mp hx
@@ -254,13 +254,13 @@ theorem dumpTree_depth (ipfix : Bool) (ts : Nat → Int) (c : Cache) : depth (du
 /-! ## The cache file is accepted; no proper prefix of it is -/
 
 /-- **the file `Dump` writes is accepted by the scanner**, whatever the cache and the timestamps -/
-theorem dump_valid (ipfix : Bool) (ts : Nat → Int) (c : Cache) : jsonValid (dumpJsonTs ipfix ts c) = true := by
+theorem dump_valid (ipfix : Bool) (ts : CKey → Int) (c : Cache) : jsonValid (dumpJsonTs ipfix ts c) = true := by
   rw [dumpJsonTs_eq_render]
   exact render_valid _ (dumpTree_wf ipfix ts c)
     (Nat.le_trans (dumpTree_depth ipfix ts c) (by decide))
 
 /-- **every proper prefix of the file `Dump` writes is rejected by the scanner** -/
-theorem dump_prefix_rejected (ipfix : Bool) (ts : Nat → Int) (c : Cache) (n : Nat)
+theorem dump_prefix_rejected (ipfix : Bool) (ts : CKey → Int) (c : Cache) (n : Nat)
     (h : n < (dumpJsonTs ipfix ts c).length) : jsonValid ((dumpJsonTs ipfix ts c).take n) = false := by
   rw [dumpJsonTs_eq_render] at h ⊢
   exact render_prefix_rejected _ (dumpTree_wf ipfix ts c)
